@@ -174,6 +174,48 @@ fn packagings(v: &IxView, idx: usize, salt: u64, cov: &mut Coverage, out: &mut V
         }
         i
     };
+    // 0. the same ticks in the other encoding: every existing array of the swap is rewritten fixed <-> dynamic on a copy
+    //    (a random subset of them); the outcome - pool, vaults, trader and the decoded tick contents - must be the same
+    {
+        let mut f = v.pre.clone();
+        let mut flipped = 0;
+        let mut uniq: Vec<Pubkey> = Vec::new();
+        for k in arrays.iter().chain(c.remaining().iter().map(|m| &m.pubkey)) {
+            if !uniq.contains(k) {
+                uniq.push(*k);
+            }
+        }
+        for k in &uniq {
+            if let Some(a) = v.pre.get(k).cloned() {
+                if a.owner != ix::wp() {
+                    continue;
+                }
+                if let Ok(ta) = decode::tick_array(&a.data) {
+                    if ta.whirlpool == wk && (rng.chance(2, 3) || flipped == 0) {
+                        let d = decode::reencode_tick_array(&ta);
+                        let lam = a.lamports.max(crate::world::rent_min(decode::FIXED_TA_LEN));
+                        f.put(*k, crate::rt::Account::new(lam, d, a.owner));
+                        flipped += 1;
+                    }
+                }
+            }
+        }
+        if flipped > 0 {
+            let (r, f2) = exec_full(&f, v.ix.clone());
+            cov.probe("packaging_other_encoding");
+            cov.eval(format!("{}|other_encoding|flipped={}|ok={}", name, flipped, r.ok));
+            let contents = |l: &Ledger| -> Vec<Option<Vec<decode::Tick>>> { uniq.iter().map(|k| l.data(k).and_then(|d| decode::tick_array(d).ok()).map(|t| t.ticks)).collect() };
+            let outside = |l: &Ledger| signature(l, &wk, &pool, &trader, &uniq).into_iter().filter(|(k, _)| !uniq.contains(k) && decode::tick_array(l.data(k).unwrap_or(&[])).is_err()).collect::<Vec<_>>();
+            if !r.ok {
+                out.push(viol("encoding_changes_outcome", idx, format!("{} fails (code {:?}) when {} of its tick arrays hold the same ticks in the other encoding (fixed <-> dynamic), although it succeeds as it is", name, r.custom(), flipped)));
+                return;
+            }
+            if contents(&f2) != contents(v.post) || outside(&f2) != outside(v.post) {
+                out.push(viol("encoding_changes_outcome", idx, format!("{} leaves a different pool / vault / trader state or different tick contents when {} of its tick arrays hold the same ticks in the other encoding (fixed <-> dynamic)", name, flipped)));
+                return;
+            }
+        }
+    }
     // 1. every order of the three arrays
     let perms: [[usize; 3]; 5] = [[0, 2, 1], [1, 0, 2], [1, 2, 0], [2, 0, 1], [2, 1, 0]];
     let p = perms[rng.idx(5)];
